@@ -650,6 +650,8 @@ def s_h1s_wait(vc):
         vc.ensure("data.kept_silently", len(tr) == 0)
         return
     vc.ensure("closed.exactly_one_protocol_error", len(errs) == 1 and is_cmd(errs[0].event, "RequestProtocolError"))
+    if len(errs) != 1:
+        return
     vc.ensure("closed.for_the_open_stream", errs[0].event.stream_id == sid)
     vc.ensure("closed.error_is_last", tr[-1] is errs[0])
     closes = [c for c in tr if is_cmd(c, "CloseConnection")]
@@ -672,6 +674,8 @@ def s_h1c_closed(vc):
     errs = [c for c in out.trace if is_cmd(c, "ReceiveHttp")]
     if has_stream:
         vc.ensure("open_stream.exactly_one_protocol_error", len(errs) == 1 and is_cmd(errs[0].event, "ResponseProtocolError"))
+        if len(errs) != 1:
+            return
         vc.ensure("open_stream.for_that_stream", errs[0].event.stream_id == sid)
     else:
         vc.ensure("idle.no_error", errs == [])
